@@ -263,6 +263,12 @@ func TestReplay(t *testing.T) {
 	for i := 0; i < n; i++ {
 		v := ev.eval(c, true)
 		out.Runs++
+		if os.Getenv("VERIF_REPLAY_TRACE") != "" && i == 0 {
+			for _, l := range v.Trace {
+				fmt.Println(l)
+			}
+			fmt.Println("verdict:", v.Kind, v.Reason)
+		}
 		viol, inc := isViolation(p, v)
 		if inc {
 			out.Inconcl++
